@@ -169,6 +169,14 @@ package db
 //@ smt strings
 //@ (declare-fun str_upper (Str) Str)
 
+// Names in the schema table are compared case-insensitively everywhere: master() hands them out
+// lower-cased (lowered(s): s is the lower-casing of some string).
+//@ smt lowered
+//@ (declare-fun lowered (Str) Bool)
+//@ (assert (forall ((x Str)) (! (lowered (str_lower x)) :pattern ((str_lower x)))))
+//@ macro MASTER_OK(objs) = (forall qo int :: 0 <= qo && qo < len(objs) ==> lowered(objs[qo].name) && lowered(objs[qo].tblName))
+//@ type-invariant db.objectCache = MASTER_OK(self.objects)
+
 // master: the header is re-validated (resolveDirty) before a cached schema is handed out; otherwise
 // every row of the sqlite_master table (root page 1) is read.
 //@ func (*db.Database).master
@@ -183,6 +191,7 @@ package db
 //@   ghost-entry halt = false
 //@   ghost-entry searching = false
 //@   ensures [fresh] err == nil ==> hdr_valid
+//@   ensures [normalised] MASTER_OK(r0)
 //@   ghost-exit cur_tree = old(cur_tree)
 //@   ghost-exit pos = old(pos)
 //@   ghost-exit halt = old(halt)
@@ -192,6 +201,7 @@ package db
 //@ func (*db.Database).master$1
 //@   implements functype db.iterCB
 //@   free-requires db != nil && !searching
+//@   closure-invariant [normalised] MASTER_OK(objects)
 //@   ensures [nostop] !done
 //@   ghost-exit pos = old(pos) + 1
 
